@@ -5,48 +5,187 @@ Tie: correspondence of `TsDB.list(names, relative)`, `get(name)` (key or error k
 with `Qats.Names` on databases built from generated files (names over the property's alphabet: letters, digits, `_ - .`
 space `[ ] ( ) ^` and `/` inside brackets) in one or several directories plus in-memory series; also the string functions
 themselves (`fnmatch` of escaped patterns, `_remove_special_characters`) against the Python originals.
-Search: literal / complete / ordered / self-selection clauses on the real database.
+Search: literal / complete / ordered / self-selection / retrieval-order clauses on the real database, on freshly built databases
+and after operation histories (query, read-and-store, rename, clear, add, update, load of a further file).
+
+Every database is described by a JSON `spec` (files with their column names, in-memory series, history of operations) and is
+rebuilt from it on replay under the same temporary root, so that keys and patterns are identical.
 """
 import fnmatch as pyfnmatch
 import os
+import re
+import shutil
 
 import numpy as np
 
 from .. import core
 from ..dbutil import Files, err_enum, hx, hxlist, unhx, unhxlist
 
-RULE = ("seeded key sets: 1-3 generated files in 1-2 directories (incl. same file name in a sub-directory) with 1-4 series each, names "
-        "from the property's alphabet incl. unit brackets with '/', optionally in-memory series; patterns: every name, full key, listed "
-        "relative name, fragments with * and ?, two-pattern lists; non-trivial = pattern with a special character or wildcard; "
-        "distinct by (key set, pattern)")
+RULE = ("seeded key sets: 1-3 generated files in 1-2 directories (incl. same file name in a sub-directory, same channel names in "
+        "several files) with 1-4 series each, names from the property's alphabet incl. unit brackets with '/', optionally in-memory "
+        "series; optionally a history of 1-3 operations (query / get+store / getm+store / rename / clear / add / update / load) before "
+        "the queries; patterns: names=None, every name, full key, listed relative name, fragments with * and ?, pattern lists of 2-3 "
+        "(also in non-registration order); non-trivial = pattern with a special character or wildcard; distinct by (key set, pattern)")
 
 POOL = ["a", "b", "Tension [kN/m]", "Moment [kNm]", "x y", "Acc(1)", "z^2", "m_1-2.5", "T [kN/m]", "Heave (m)", "[raw]", "a b [m/s^2]",
         "Force", "force_2", "A", "p[0]", "q]"]
+NEWNAMES = POOL + ["renamed_series", "Sway (lf) [m]", "Surge^2 [m^2]", "added_1"]
+LAYOUTS = [["f.pkl"], ["f.pkl", "g.pkl"], ["f.pkl", "sub/f.pkl"], ["d1/f.pkl", "d2/f.pkl", "d1/g.pkl"]]
+OP_ERRORS = (KeyError, ValueError, LookupError, TypeError)
 
 
-def build(rng, fl):
+# ---------------------------------------------------------------------------------------------------------------------------------
+# scenario description (JSON) and its realisation on the real TsDB
+# ---------------------------------------------------------------------------------------------------------------------------------
+class Gen:
+    """generator of database specs; directory names carry a running number so that two specs never share a file"""
+
+    def __init__(self, rng):
+        self.rng = rng
+        self.ndir = 0
+
+    def newdir(self):
+        self.ndir += 1
+        return "c%04d%02d" % (self.ndir, self.rng.randrange(100))
+
+    def spec(self, seed0=0, mem=True):
+        rng = self.rng
+        nfiles = rng.choice([1, 1, 2, 3])
+        layout = rng.choice(LAYOUTS)[:nfiles]
+        one_dir = rng.random() < 0.5                  # the layout inside one directory / every file in a directory of its own
+        same_names = rng.random() < 0.4               # the same channels in every file (case files of one model)
+        d0 = self.newdir()
+        base = rng.sample(POOL, rng.choice([2, 3, 4]))
+        files = []
+        for i, rel in enumerate(layout):
+            d = d0 if one_dir else self.newdir()
+            if same_names:
+                names = list(base)
+                if rng.random() < 0.3:
+                    rng.shuffle(names)
+            else:
+                names = rng.sample(POOL, rng.choice([1, 1, 2, 3, 4]))
+            files.append([os.path.join(d, rel), names, seed0 + i])
+        spec = dict(files=files)
+        if mem and rng.random() < 0.25:
+            spec["mem"] = rng.sample(POOL, rng.choice([1, 2]))
+        return spec
+
+    def history(self, spec):
+        rng = self.rng
+        ops = []
+        for _ in range(rng.choice([1, 1, 2, 3])):
+            kind = rng.choice(["query", "get", "get", "getm", "rename", "rename", "clear", "add", "update", "load"])
+            if kind == "query":
+                ops.append(["query"])
+            elif kind == "get":
+                ops.append(["get", rng.randrange(8), rng.random() < 0.8])
+            elif kind == "getm":
+                nm = rng.choice(rng.choice(spec["files"])[1])
+                ops.append(["getm", rng.choice(["*", nm, nm[:1] + "*", [nm[:1] + "*", "*"]]), rng.random() < 0.8])
+            elif kind == "rename":
+                ops.append(["rename", rng.randrange(8), rng.choice(NEWNAMES)])
+            elif kind == "clear":
+                ops.append(["clear", rng.randrange(8)])
+            elif kind == "add":
+                ops.append(["add", rng.choice(NEWNAMES), 2000.0 + len(ops)])
+            elif kind == "update":
+                ops.append(["update", self.spec(seed0=10 * (len(ops) + 1)), rng.random() < 0.5])
+            else:
+                ops.append(["load", [os.path.join(self.newdir(), rng.choice(["f.pkl", "g.pkl", "h.pkl"])),
+                                     rng.sample(POOL, rng.choice([1, 2, 3])), 50 + len(ops)]])
+        return ops
+
+
+class FixedFiles(Files):
+    """the temporary tree of a past run, re-created under the same root (replay: keys and patterns stay identical)"""
+
+    def __init__(self, root):
+        self.root = root
+        self.created = not os.path.exists(root)
+        os.makedirs(root, exist_ok=True)
+
+    def close(self):
+        if self.created:
+            shutil.rmtree(self.root, ignore_errors=True)
+
+
+def realise(fl, spec):
+    """build the database described by `spec`; returns (db, vals): vals[i] = first data value of the i-th registered series
+    (tracked by the harness along the history: load/add/update append, rename keeps the position, clear removes), or None when
+    the bookkeeping could not follow an operation"""
     from qats import TsDB, TimeSeries
-    nfiles = rng.choice([1, 1, 2, 3])
-    layouts = rng.choice([["f.pkl"], ["f.pkl", "g.pkl"], ["f.pkl", "sub/f.pkl"], ["d1/f.pkl", "d2/f.pkl", "d1/g.pkl"]])[:nfiles]
     db = TsDB()
-    for i, rel in enumerate(layouts):
-        names = rng.sample(POOL, rng.choice([1, 1, 2, 3, 4]))
-        p = fl.make(os.path.join("c%06d" % rng.randrange(10 ** 6), rel), names, seed=i)
+    st = dict(vals=[])
+
+    def load(f):
+        rel, names, seed = f
+        p = fl.make(rel, names, seed=seed)
         db.load([p])
-    if rng.random() < 0.25:
+        st["vals"] += [100.0 * (seed + 1) + 10.0 * j for j in range(len(names))]
+
+    def add(nm, v):
         t = np.arange(3.0)
-        for nm in rng.sample(POOL, rng.choice([1, 2])):
-            try:
-                db.add(TimeSeries(nm, t, t))
-            except KeyError:
-                pass
-    return db
+        try:
+            db.add(TimeSeries(nm, t, t + v))
+            st["vals"].append(float(v))
+        except KeyError:
+            pass
+
+    for f in spec["files"]:
+        load(f)
+    for j, nm in enumerate(spec.get("mem", [])):
+        add(nm, 1000.0 + 10.0 * j)
+    for op in spec.get("hist", []):
+        n = len(db.register_keys)
+        keys = list(db.register_keys)
+        try:
+            if op[0] == "query":
+                _ = db.common, db.list(display=False, relative=True), db.list(names="*", display=False)
+            elif op[0] == "get" and n:
+                db.get(name=keys[op[1] % n], store=op[2])
+            elif op[0] == "getm":
+                db.getm(names=op[1], store=op[2])
+            elif op[0] == "rename" and n:
+                db.rename(keys[op[1] % n], op[2])
+            elif op[0] == "clear" and n:
+                db.clear(names=keys[op[1] % n], display=False)
+                if list(db.register_keys) == keys[:op[1] % n] + keys[op[1] % n + 1:]:
+                    st["vals"].pop(op[1] % n)
+                else:
+                    st["vals"] = None
+            elif op[0] == "add":
+                add(op[1], op[2])
+            elif op[0] == "update":
+                other, ovals = realise(fl, op[1])
+                db.update(other, shallow=op[2])
+                if st["vals"] is not None and ovals is not None:
+                    st["vals"] += ovals
+                else:
+                    st["vals"] = None
+            elif op[0] == "load":
+                load(op[1])
+        except OP_ERRORS:
+            pass
+        if st["vals"] is None:
+            break
+    vals = st["vals"]
+    if vals is not None and len(vals) != len(db.register_keys):
+        vals = None
+    return db, vals
 
 
-def patterns(rng, db):
+# ---------------------------------------------------------------------------------------------------------------------------------
+# queries
+# ---------------------------------------------------------------------------------------------------------------------------------
+def short(k):
+    return k.split(".pkl/")[-1] if ".pkl/" in k else os.path.basename(k)
+
+
+def patterns(db):
     keys = list(db.register_keys)
     rel = db.list(display=False, relative=True)
-    names = [k.split(".pkl/")[-1] if ".pkl/" in k else os.path.basename(k) for k in keys]
+    names = [short(k) for k in keys]
     pats = set()
     for k, r, n in zip(keys, rel, names):
         pats.update([k, r, n])
@@ -56,6 +195,214 @@ def patterns(rng, db):
         pats.add("*/" + n)
     pats.update(["*", "*[kN/m]", "*(*)", "nomatch", "[raw]", "*^*", "?", "*.pkl/*", "* *"])
     return sorted(pats)
+
+
+def pattern_lists(rng, db, pats, count):
+    """lists of 2-3 patterns: arbitrary ones, wildcard ones, and one pattern per distinct series name taken in an order that is
+    not the registration order (the matches of such a list interleave the files)"""
+    keys = list(db.register_keys)
+    uniq = []
+    for k in keys:
+        if short(k) not in uniq:
+            uniq.append(short(k))
+    wild = [p for p in pats if "*" in p or "?" in p]
+    out = []
+    for i in range(count):
+        m = rng.choice([2, 2, 3])
+        mode = i % 3
+        if mode == 0 and len(uniq) >= 2:
+            pick = rng.sample(uniq, min(m, len(uniq)))
+            pick.sort(key=lambda n: -uniq.index(n))
+            if rng.random() < 0.3:
+                rng.shuffle(pick)
+            out.append([n if (rng.random() < 0.5 or len(n) < 2) else n[:1] + "*" for n in pick])
+        elif mode == 1 and len(wild) >= 2:
+            out.append(rng.sample(wild, min(m, len(wild))))
+        else:
+            out.append(rng.sample(pats, min(m, len(pats))))
+    return out
+
+
+def line_for(what, arg, keys, cwd, rel=False):
+    K = hxlist(keys)
+    if what == "common":
+        return "nm.common %s" % K
+    if what == "rel":
+        return "nm.list %s 1 none %s" % (hx(cwd), K)
+    if what == "none":
+        return "nm.list %s 0 none %s" % (hx(cwd), K)
+    if what == "list":
+        return "nm.list %s 0 %s %s" % (hx(cwd), hxlist([arg]), K)
+    if what == "listn":
+        return "nm.list %s %d %s %s" % (hx(cwd), 1 if rel else 0, hxlist(list(arg)), K)
+    if what == "get":
+        return "nm.get %s %s" % (hx(arg), K)
+    if what == "in":
+        return "nm.contains %s %s" % (hx(arg), K)
+    if what == "retkey":
+        return "nm.retkey %s %s" % (hx(arg), K)
+    return None
+
+
+def dedup(l):
+    out = []
+    for x in l:
+        if x not in out:
+            out.append(x)
+    return out
+
+
+def reference(keys, common, pat):
+    """reference matcher: only * and ? are special; a pattern that does not start with the common path matches below any directory"""
+    if not (common == "" or pat.startswith(common)):
+        pat = "*/" + pat
+    rx = re.compile("".join(".*" if c == "*" else "." if c == "?" else re.escape(c) for c in pat) + r"\Z", re.S)
+    return [k for k in keys if rx.match(k)]
+
+
+def first_values(tslist):
+    return [float(ts.x[0]) for ts in tslist]
+
+
+def retrieval(chk, db, vals, keys, inp, names, listed):
+    """selection through getm / getl returns the listed series, in listing order"""
+    want = dedup(listed)
+    try:
+        got = list(db.getm(names=names, fullkey=True, store=False).keys())
+    except Exception as e:
+        got = err_enum(e)
+    if got != want:
+        chk.fail("retrieval of several series by names (getm keys) returns exactly the listed series, ordered by pattern and then by "
+                 "registration order", inp, want, got, clause="getm-order")
+    if vals is not None:
+        exp = [vals[keys.index(k)] for k in want]
+        try:
+            gv = first_values(db.getl(names=names, store=False))
+        except Exception as e:
+            gv = err_enum(e)
+        if gv != exp:
+            chk.fail("retrieval of several series by names (getl) returns the data of the listed series, ordered by pattern and "
+                     "then by registration order", inp, exp, gv, clause="getl-order")
+
+
+def evaluate(chk, db, vals, base, what, arg, reply=None, rel=False):
+    """correspondence with the model reply (when given) and the property's clauses on the real database for one query"""
+    keys = list(db.register_keys)
+    inp = dict(base, keys=keys, what=what, arg=arg)
+    if rel:
+        inp["rel"] = True
+    o = reply
+    chk.count("nm." + what)
+    if what == "common":
+        if o is not None and unhx(o.split()[1]) != db.common:
+            chk.disagree("nm.common", inp, unhx(o.split()[1]), db.common)
+    elif what == "rel":
+        im = db.list(display=False, relative=True)
+        if o is not None and unhxlist(o.split()[1]) != im:
+            chk.disagree("nm.list(relative)", inp, unhxlist(o.split()[1]), im)
+    elif what == "none":
+        im = db.list(display=False)
+        if o is not None and unhxlist(o.split()[1]) != im:
+            chk.disagree("nm.list(all)", inp, unhxlist(o.split()[1]), im)
+        if im != keys:
+            chk.fail("without a pattern every registered series is listed, in registration order", inp, keys, im, clause="all-ordered")
+        try:
+            byind = list(db.getm(ind=list(range(len(keys))), fullkey=True, store=False).keys())
+        except Exception as e:
+            byind = err_enum(e)
+        if byind != im:
+            chk.fail("the listing order is the registration order (the order addressed by index)", inp, byind, im, clause="all-ordered")
+        retrieval(chk, db, vals, keys, inp, None, im)
+    elif what in ("list", "listn"):
+        im = db.list(names=arg, display=False, relative=rel)
+        if o is not None and unhxlist(o.split()[1]) != im:
+            chk.disagree("nm.list", inp, unhxlist(o.split()[1]), im)
+        if what == "list":
+            if any(c in arg for c in "[]()^*?"):
+                chk.nontriv((tuple(keys), arg))
+            chk.dist("matches=%d" % min(len(im), 3))
+            # literal, complete, ordered: reference matcher where only * and ? are special
+            ref = reference(keys, db.common, arg)
+            if im != ref:
+                chk.fail("selection returns exactly the registered keys matching the shell-style pattern with brackets, "
+                         "parentheses and carets literal, in registration order", inp, ref, im, clause="literal")
+            retrieval(chk, db, vals, keys, inp, arg, im)
+        elif not rel:
+            chk.nontriv((tuple(keys), tuple(arg)))
+            cm = db.common
+            ref = dedup([k for p in arg for k in reference(keys, cm, p)])
+            if dedup(im) != ref:
+                chk.fail("selection by a list of patterns returns exactly the matching registered keys, ordered by pattern and then "
+                         "by registration order", inp, ref, dedup(im), clause="list-ordered")
+            retrieval(chk, db, vals, keys, inp, list(arg), im)
+            if isinstance(arg, list):
+                tu = db.list(names=tuple(arg), display=False)
+                if tu != im:
+                    chk.fail("a tuple of patterns selects as the list of the same patterns", inp, im, tu, clause="list-ordered")
+    elif what == "get":
+        listed = db.list(names=arg, display=False)
+        try:
+            ts = db.get(name=arg, store=False)
+            im = "ok " + hx(listed[0])            # get returns the series; its key is the listing's
+        except Exception as e:
+            ts = None
+            im = err_enum(e)
+        if o is not None and o.strip() != im:
+            chk.disagree("nm.get", inp, o, im)
+        n = len(listed)
+        exp = "err lookup" if n == 0 else "err value" if n > 1 else "ok"
+        if not im.startswith(exp):
+            chk.fail("single retrieval agrees with the listing (no match: lookup error; several: value error)", inp, exp, im,
+                     clause="get-agrees")
+        if ts is not None and n == 1 and vals is not None and listed[0] in keys:
+            v, e = float(ts.x[0]), vals[keys.index(listed[0])]
+            if v != e:
+                chk.fail("single retrieval returns the listed series", inp, e, v, clause="get-agrees")
+    elif what == "in":
+        im = arg in db
+        if o is not None and (o.strip() == "ok 1") != im:
+            chk.disagree("nm.contains", inp, o, im)
+        if im != (len(db.list(names=arg, display=False)) > 0):
+            chk.fail("containment agrees with the listing", inp, len(db.list(names=arg, display=False)) > 0, im, clause="in-agrees")
+    elif what == "retkey":
+        c = db.getm(names=arg, store=False)
+        got = list(c.keys())
+        if o is not None and got != [unhx(o.split()[1])] and len(got) == 1:
+            chk.disagree("nm.retkey", inp, unhx(o.split()[1]), got)
+    elif what == "self":
+        # arg = position of the series in registration order
+        k = keys[arg]
+        r = db.list(display=False, relative=True)[arg]
+        inp = dict(base, keys=keys, what=what, arg=arg, key=k, relative=r)
+        got = db.list(names=k, display=False)
+        if got != [k]:
+            chk.fail("every registered series is selected unambiguously by its full key", inp, [k], got, clause="self-full")
+        got = db.list(names=r, display=False)
+        if got != [k]:
+            chk.fail("every registered series is selected unambiguously by its own listed relative name", inp, [k], got,
+                     clause="self-relative")
+
+
+def enqueue(rng, quick, db, todo, npats, nlists, extra_pats=(), extra_lists=()):
+    """the queries asked of one database state: (what, arg, rel) triples"""
+    keys = list(db.register_keys)
+    pats = patterns(db)
+    chosen = rng.sample(pats, min(len(pats), npats)) if quick else list(pats)
+    for p in ["*"] + list(extra_pats):
+        if p not in chosen:
+            chosen.append(p)
+    q = [("common", None, False), ("rel", None, False), ("none", None, False)]
+    for p in chosen:
+        q += [("list", p, False), ("get", p, False), ("in", p, False)]
+    for _ in range(3):
+        q.append(("listn", rng.sample(pats, 2), rng.random() < 0.5))
+    for l in pattern_lists(rng, db, pats, nlists) + [list(l) for l in extra_lists]:
+        q.append(("listn", l, False))
+    for k in keys:
+        q.append(("retkey", k, False))
+    for i in range(len(keys)):
+        q.append(("self", i, False))
+    todo.append(q)
 
 
 def run(chk):
@@ -71,144 +418,41 @@ def run(chk):
     fl = Files()
     cwd = os.getcwd()
     try:
-        N = 60 if chk.quick else 700
-        lines, meta = [], []
-        dbs = []
+        gen = Gen(rng)
+        scns = []          # (spec, extra single patterns, extra pattern lists)
+        for c in core.load_corpus("C09"):
+            scns.append((c["spec"], c.get("pats", []), c.get("lists", [])))
+        ncorpus = len(scns)
+        N = 45 if chk.quick else 500
+        H = 45 if chk.quick else 500
         for _ in range(N):
-            db = build(rng, fl)
-            keys = list(db.register_keys)
-            dbs.append(db)
-            K = hxlist(keys)
-            pats = patterns(rng, db)
-            if chk.quick:
-                pats = rng.sample(pats, min(len(pats), 25))
-            lines.append("nm.common %s" % K); meta.append((db, "common", None))
-            lines.append("nm.list %s 1 none %s" % (hx(cwd), K)); meta.append((db, "rel", None))
-            for p in pats:
-                lines.append("nm.list %s 0 %s %s" % (hx(cwd), hxlist([p]), K)); meta.append((db, "list", p))
-                lines.append("nm.get %s %s" % (hx(p), K)); meta.append((db, "get", p))
-                lines.append("nm.contains %s %s" % (hx(p), K)); meta.append((db, "in", p))
-            for _ in range(3):
-                two = rng.sample(pats, 2)
-                lines.append("nm.list %s %d %s %s" % (hx(cwd), rng.random() < 0.5, hxlist(two), K)); meta.append((db, "list2", two))
-                lines[-1] = lines[-1]
-            for k in keys:
-                lines.append("nm.retkey %s %s" % (hx(k), K)); meta.append((db, "retkey", k))
-        outs = drv.run(lines)
-        for (db, what, arg), ln, o in zip(meta, lines, outs):
-            keys = list(db.register_keys)
-            inp = dict(keys=keys, what=what, arg=arg)
-            chk.count("nm." + what)
-            if what == "common":
-                if unhx(o.split()[1]) != db.common:
-                    chk.disagree("nm.common", inp, unhx(o.split()[1]), db.common)
-            elif what == "rel":
-                im = db.list(display=False, relative=True)
-                if unhxlist(o.split()[1]) != im:
-                    chk.disagree("nm.list(relative)", inp, unhxlist(o.split()[1]), im)
-            elif what in ("list", "list2"):
-                rel = ln.split()[2] == "1"
-                names = arg if what == "list2" else arg
-                im = db.list(names=names if what == "list2" else arg, display=False, relative=rel)
-                if unhxlist(o.split()[1]) != im:
-                    chk.disagree("nm.list", inp, unhxlist(o.split()[1]), im)
-                if what == "list":
-                    if any(c in arg for c in "[]()^*?"):
-                        chk.nontriv((tuple(keys), arg))
-                    chk.dist("matches=%d" % min(len(im), 3))
-                    # literal, complete, ordered: reference matcher where only * and ? are special
-                    cm = db.common
-                    pat = arg if (cm == "" or arg.startswith(cm)) else "*/" + arg
-                    import re
-                    rx = re.compile("".join(".*" if c == "*" else "." if c == "?" else re.escape(c) for c in pat) + r"\Z", re.S)
-                    ref = [k for k in keys if rx.match(k)]
-                    if im != ref:
-                        chk.fail("selection returns exactly the registered keys matching the shell-style pattern with brackets, "
-                                 "parentheses and carets literal, in registration order", inp, ref, im, clause="literal")
-            elif what == "get":
-                try:
-                    db.get(name=arg, store=False)
-                    im = "ok " + hx(db.list(names=arg, display=False)[0])   # get returns the series; its key is the listing's
-                except Exception as e:
-                    im = err_enum(e)
-                if o.strip() != im:
-                    chk.disagree("nm.get", inp, o, im)
-                n = len(db.list(names=arg, display=False))
-                exp = "err lookup" if n == 0 else "err value" if n > 1 else "ok"
-                if not im.startswith(exp):
-                    chk.fail("single retrieval agrees with the listing (no match: lookup error; several: value error)", inp, exp, im,
-                             clause="get-agrees")
-            elif what == "in":
-                im = arg in db
-                if (o.strip() == "ok 1") != im:
-                    chk.disagree("nm.contains", inp, o, im)
-                if im != (len(db.list(names=arg, display=False)) > 0):
-                    chk.fail("containment agrees with the listing", inp, len(db.list(names=arg, display=False)) > 0, im, clause="in-agrees")
-            elif what == "retkey":
-                c = db.getm(names=arg, store=False)
-                got = list(c.keys())
-                if got != [unhx(o.split()[1])] and len(got) == 1:
-                    chk.disagree("nm.retkey", inp, unhx(o.split()[1]), got)
-        # ---- self-selection on the real database ---------------------------------------------------------------------------------
-        for db in dbs:
-            keys = list(db.register_keys)
-            rel = db.list(display=False, relative=True)
-            for k, r in zip(keys, rel):
-                chk.count("self-select")
-                inp = dict(keys=keys, key=k, relative=r)
-                if db.list(names=k, display=False) != [k]:
-                    chk.fail("every registered series is selected unambiguously by its full key", inp, [k], db.list(names=k, display=False),
-                             clause="self-full")
-                got = db.list(names=r, display=False)
-                if got != [k]:
-                    chk.fail("every registered series is selected unambiguously by its own listed relative name", inp, [k], got,
-                             clause="self-relative")
-        # ---- histories: query, mutate the database (update / rename / clear / add), query again ------------------------------------
-        # (derived state such as the common path must follow every mutation)
-        from qats import TimeSeries
-        hl, hm = [], []
-        for db in dbs[:len(dbs) // 2]:
-            other = build(rng, fl)
-            op = rng.choice(["update", "update", "rename", "clear", "add"])
-            keys0 = list(db.register_keys)
-            _ = db.common, db.list(display=False, relative=True)          # query first
-            try:
-                if op == "update":
-                    db.update(other, shallow=rng.random() < 0.5)
-                elif op == "rename":
-                    db.rename(keys0[0], "renamed_series")
-                elif op == "clear":
-                    db.clear(names=keys0[-1], display=False)
-                else:
-                    db.add(TimeSeries("added_1", np.arange(3.0), np.arange(3.0)))
-            except (KeyError, ValueError, LookupError):
+            scns.append((gen.spec(), [], []))
+        for _ in range(H):
+            spec = gen.spec()
+            spec["hist"] = gen.history(spec)
+            scns.append((spec, [], []))
+        states, todo = [], []
+        for i, (spec, xp, xl) in enumerate(scns):
+            db, vals = realise(fl, spec)
+            if not db.register_keys:
                 continue
+            states.append((db, vals, dict(root=fl.root, spec=spec)))
+            enqueue(rng, chk.quick, db, todo, 18, 6, xp, xl)
+            chk.dist("history=%d" % min(len(spec.get("hist", [])), 3))
+            chk.dist("files=%d" % len(spec["files"]))
+        lines, where = [], []
+        for si, ((db, vals, base), q) in enumerate(zip(states, todo)):
             keys = list(db.register_keys)
-            if not keys:
-                continue
-            K = hxlist(keys)
-            hl.append("nm.common %s" % K); hm.append((db, op, "common", None))
-            hl.append("nm.list %s 1 none %s" % (hx(cwd), K)); hm.append((db, op, "rel", None))
-            for k in keys:
-                hl.append("nm.list %s 0 %s %s" % (hx(cwd), hxlist([k]), K)); hm.append((db, op, "full", k))
-        for (db, op, what, arg), o in zip(hm, drv.run(hl)):
-            keys = list(db.register_keys)
-            inp = dict(keys=keys, after=op, what=what, arg=arg)
-            chk.count("history." + what)
-            if what == "common":
-                if unhx(o.split()[1]) != db.common:
-                    chk.disagree("nm.common(after %s)" % op, inp, unhx(o.split()[1]), db.common)
-            elif what == "rel":
-                im = db.list(display=False, relative=True)
-                if unhxlist(o.split()[1]) != im:
-                    chk.disagree("nm.list(relative, after %s)" % op, inp, unhxlist(o.split()[1]), im)
-            else:
-                im = db.list(names=arg, display=False)
-                if unhxlist(o.split()[1]) != im:
-                    chk.disagree("nm.list(after %s)" % op, inp, unhxlist(o.split()[1]), im)
-                if im != [arg]:
-                    chk.fail("every registered series is selected unambiguously by its full key (after %s)" % op,
-                             dict(keys=keys, key=arg, after=op), [arg], im, clause="self-full")
+            for qi, (what, arg, rel) in enumerate(q):
+                ln = line_for(what, arg, keys, cwd, rel)
+                if ln is not None:
+                    where.append((si, qi))
+                    lines.append(ln)
+        replies = dict(zip(where, drv.run(lines)))
+        for si, ((db, vals, base), q) in enumerate(zip(states, todo)):
+            for qi, (what, arg, rel) in enumerate(q):
+                evaluate(chk, db, vals, base, what, arg, reply=replies.get((si, qi)), rel=rel)
+        chk.extra["corpus_cases"] = ncorpus
         # ---- the string functions against the Python originals ---------------------------------------------------------------------
         alpha = "ab [](^)!-:*?/."
         sl, sm = [], []
@@ -228,7 +472,7 @@ def run(chk):
                 im = pyfnmatch.fnmatchcase(k, p)
                 if (o.strip() == "ok 1") != im:
                     chk.disagree("nm.fnmatch", dict(pattern=p, name=k), o, im)
-        chk.sample(dict(keys=list(dbs[0].register_keys), common=dbs[0].common))
+        chk.sample(dict(keys=list(states[0][0].register_keys), common=states[0][0].common))
     finally:
         fl.close()
 
@@ -265,8 +509,43 @@ def f22_shape(f):
 
 
 def replay(rp):
-    from qats import TsDB
-    inp = rp["input"]
-    print("keys:", inp["keys"])
-    print("replay needs the generated files; re-run: VERIF_SEED=%s ./check C09 %s" % (rp.get("seed"), rp.get("tier")))
-    return 1
+    inp = rp.get("input")
+    dis = None
+    if inp is None and rp.get("first_disagreement"):
+        dis = rp["first_disagreement"]
+        inp = dis.get("input")
+    if not isinstance(inp, dict) or "spec" not in inp:
+        if isinstance(inp, dict) and ("pattern" in inp or "s" in inp):
+            print("string-function disagreement:", dis)
+            return 1
+        print("nothing to replay (no database spec in this file); re-run: VERIF_SEED=%s ./check C09 %s" % (rp.get("seed"), rp.get("tier")))
+        return 1
+    fl = FixedFiles(inp["root"])
+    try:
+        db, vals = realise(fl, inp["spec"])
+        keys = list(db.register_keys)
+        print("spec:", inp["spec"])
+        print("keys:", keys)
+        print("query:", inp["what"], repr(inp["arg"]))
+        if keys != inp.get("keys"):
+            print("note: the rebuilt database has different keys than the recorded ones:", inp.get("keys"))
+        chk = core.Check("C09", "quick", 0)
+        what, arg, rel = inp["what"], inp["arg"], bool(inp.get("rel"))
+        reply = None
+        ln = line_for(what, arg, keys, os.getcwd(), rel)
+        if ln is not None:
+            try:
+                reply = core.Driver().run([ln])[0]
+            except Exception as e:      # the clauses on the implementation do not need the model
+                print("model not available:", e)
+        evaluate(chk, db, vals, dict(root=inp["root"], spec=inp["spec"]), what, arg, reply=reply, rel=rel)
+        for f in chk.failing:
+            print("FAILS:", f["oracle"])
+            print("   expected:", f["expected"])
+            print("   observed:", f["observed"])
+        for d in chk.disagreements:
+            print("model and implementation differ on %s: model %r, implementation %r" % (d["stream"], d["model"], d["impl"]))
+        print("replay: %d failing clause(s), %d disagreement(s)" % (len(chk.failing), len(chk.disagreements)))
+        return 1 if (chk.failing or chk.disagreements) else 0
+    finally:
+        fl.close()
